@@ -208,7 +208,7 @@ impl Recorder {
 /// worker_start point and are started one by one up to their first schedule point; then each step grants the worker
 /// that the schedule names, provided it is parked at the site `want(action)`. Returns why the schedule could not be followed.
 pub fn drive(rec: &Recorder, threads: usize, schedule: &[(u64, String)], want: &dyn Fn(&str) -> &'static str) -> Option<String> {
-    let to = Duration::from_secs(8);
+    let to = Duration::from_secs(30);
     match rec.wait_quiescent(threads, to) {
         None => return Some("workers did not all arrive at worker_start".into()),
         Some(parked) => {
